@@ -1,11 +1,18 @@
 #!/bin/bash
-# MANIFEST.setup_cmd: full .vo build of the Coq development (no -vos), offline.
+# MANIFEST.setup_cmd: full .vo build (no -vos) of the Coq development behind every claimed check, offline.
 cd "$(dirname "$0")"
-export PYTHONPATH="/verif"
+export PYTHONPATH="${VERIF_REPO:-/repo}:/verif"
 exec /venv/bin/python - <<'PY'
-import sys
-from vlib import common
-ok, log = common.coq_make(None, timeout=3000)
+import sys, os, importlib
+from vlib import common, registry
+# generated models (translator output) must exist before the build
+for pid in sorted(registry.CHECKS):
+    mod = importlib.import_module('vlib.' + pid.lower())
+    if hasattr(mod, 'regenerate'):
+        print('regenerating generated model for', pid, flush=True)
+        mod.regenerate()
+targets = ['Props/%s.vo' % pid for pid in sorted(registry.CHECKS)]
+ok, log = common.coq_make(targets, timeout=3000)
 print(log[-4000:])
 g = common.gate_scan()
 if g:
